@@ -439,9 +439,9 @@ ObsWalk == \E src \in Full :
 ObsTreeFormat == \E src \in Full :
               \/ Observe("obs_tree_format", <<src, FALSE>>, WalkStructure(reg[src], 0, "None", NoParent))
               \/ Observe("obs_tree_format", <<src, TRUE>>, WalkTree(reg[src], 0, NoParent))
-(* the text renderings: format, format_flat, diagnostic, hex, tree_format, UR. The specification fixes only
-   what the properties need: they return (C16) and the counts of obscured-element markers agree with the
-   structure *)
+(* the text renderings: format, format_flat, diagnostic, hex, tree_format, UR: they return (C16), the counts
+   of obscured-element markers agree with the structure, and format / format_flat are the layout of
+   Queries!Notation *)
 RECURSIVE CountCase(_, _), SumOver(_, _)
 SumOver(S, c) == IF S = {} THEN 0 ELSE LET x == CHOOSE x \in S : TRUE IN CountCase(x, c) + SumOver(S \ {x}, c)
 CountCase(e, c) ==
@@ -452,7 +452,8 @@ CountCase(e, c) ==
     [] OTHER -> 0
 ObsFormat == \E src \in Full :
               Observe("obs_format", <<src>>, [elided |-> CountCase(reg[src], "elided"), encrypted |-> CountCase(reg[src], "enc"),
-                                             compressed |-> CountCase(reg[src], "comp"), elements |-> Size(reg[src])])
+                                             compressed |-> CountCase(reg[src], "comp"), elements |-> Size(reg[src]),
+                                             notation |-> Notation(reg[src])])
 ObsDigests == \E src \in Full, k \in 0..(MaxSize + 1) :
               /\ k <= Depth(reg[src]) + 2
               /\ Observe("obs_digests", <<src, k>>, <<"set", DigestsUpTo(reg[src], k)>>)
